@@ -47,12 +47,14 @@ def boxcar_filter(time_series, lb=0, ub=0.5, n_iterations=2):
 
     #If the time_series is a 1-d, we add a dimension, so that we can iterate
     #over 2-d inputs:
+    # The rows are filtered in place below: work on a floating point copy of
+    # the input (integer rows would truncate the filtered values):
     one_d = len(time_series.shape) == 1
+    float_type = np.result_type(np.asarray(time_series).dtype, float)
     if one_d:
-        time_series = np.array([time_series])
+        time_series = np.array([time_series], dtype=float_type)
     else:
-        # the rows are filtered in place below: work on a copy of the input
-        time_series = np.array(time_series)
+        time_series = np.array(time_series, dtype=float_type)
     for i in range(time_series.shape[0]):
         if ub:
             # Start by applying a low-pass to the signal.  Pad the signal on
